@@ -116,6 +116,9 @@ UNDEC = [b for b in range(256) if DEC[b] is None]
 IDENT_BYTES = [b for b in range(256) if DEC[b] == b]
 
 
+_SPACES = [c for c in range(0x3001) if chr(c).isspace()]
+
+
 def _norm_encoding(enc: str) -> str:
     import codecs
 
@@ -307,6 +310,67 @@ class SBytes:
             out.append(z3.simplify(dec_e(b)))
         return mkstr(out)
 
+    def ljust(self, width, fill=b"\x00"):
+        f = items_of(fill)
+        return mkbytes(self.items + f * max(0, width - len(self.items)))
+
+    def rjust(self, width, fill=b"\x00"):
+        f = items_of(fill)
+        return mkbytes(f * max(0, width - len(self.items)) + self.items)
+
+    def startswith(self, prefix):
+        p = items_of(prefix)
+        if len(p) > len(self.items):
+            return False
+        return bool(mkbytes(self.items[:len(p)]) == bytes(p) if all(isinstance(x, int) for x in p) else SBytes(self.items[:len(p)]) == SBytes(p))
+
+    def endswith(self, suffix):
+        p = items_of(suffix)
+        if len(p) > len(self.items):
+            return False
+        if not p:
+            return True
+        return bool(SBytes(self.items[-len(p):]) == mkbytes(p))
+
+    def partition(self, sep):
+        try:
+            i = self.index(sep)
+        except ValueError:
+            return (self, b"", b"")
+        return (mkbytes(self.items[:i]), mkbytes(self.items[i:i + 1]), mkbytes(self.items[i + 1:]))
+
+    def split(self, sep=None, maxsplit=-1):
+        if sep is None:
+            raise Unsupported("SBytes.split() on whitespace")
+        out, rest = [], self
+        while maxsplit != 0:
+            if not isinstance(rest, SBytes):
+                parts = rest.split(sep, maxsplit)
+                return out + parts
+            a, b, c = rest.partition(sep)
+            if len(items_of(b)) == 0:
+                break
+            out.append(a)
+            rest = c
+            maxsplit -= 1
+        return out + [rest]
+
+    def rstrip(self, chars=None):
+        if chars is None:
+            raise Unsupported("SBytes.rstrip() on whitespace")
+        cs = list(items_of(chars))
+        items = list(self.items)
+        while items:
+            x = items[-1]
+            hit = E.s_or(*[item_eq(x, c) if not isinstance(item_eq(x, c), bool) else item_eq(x, c) for c in cs])
+            if isinstance(hit, bool):
+                if not hit:
+                    break
+            elif not bool(hit):
+                break
+            items.pop()
+        return mkbytes(items)
+
     def __bytes__(self):
         raise Unsupported("bytes(SBytes)")
 
@@ -426,6 +490,148 @@ class SStr:
                 raise UnicodeEncodeError("charmap", "?", 0, 1, f"character maps to <undefined> (symbolic char {i})")
             out.append(z3.simplify(enc_e(x)))
         return mkbytes(out)
+
+    # -- searching / splitting: every comparison with a symbolic character forks ------
+    def _eq_char(self, x, c: int) -> bool:
+        if isinstance(x, int):
+            return x == c
+        return branch(x == c)
+
+    def find(self, sub, start=0, end=None):
+        sub_items = cp_items(sub)
+        n = len(self.items) if end is None else min(end, len(self.items))
+        m = len(sub_items)
+        if m == 0:
+            return start
+        for i in range(start, n - m + 1):
+            ok = True
+            for j, c in enumerate(sub_items):
+                x = self.items[i + j]
+                if isinstance(c, int):
+                    if not self._eq_char(x, c):
+                        ok = False
+                        break
+                else:
+                    if not bool(mkbool(cp_bv(x) == cp_bv(c))):
+                        ok = False
+                        break
+            if ok:
+                return i
+        return -1
+
+    def index(self, sub, start=0, end=None):
+        i = self.find(sub, start, end)
+        if i < 0:
+            raise ValueError("substring not found")
+        return i
+
+    def __contains__(self, sub):
+        return self.find(sub) >= 0
+
+    def startswith(self, prefix, start=0):
+        p = cp_items(prefix)
+        if len(p) > len(self.items) - start:
+            return False
+        return bool(mkstr(self.items[start:start + len(p)]) == prefix) if p else True
+
+    def endswith(self, suffix):
+        p = cp_items(suffix)
+        if len(p) > len(self.items):
+            return False
+        return bool(mkstr(self.items[len(self.items) - len(p):]) == suffix) if p else True
+
+    def partition(self, sep):
+        i = self.find(sep)
+        if i < 0:
+            return (self, "", "")
+        m = len(cp_items(sep))
+        return (mkstr(self.items[:i]), mkstr(self.items[i:i + m]), mkstr(self.items[i + m:]))
+
+    def split(self, sep=None, maxsplit=-1):
+        if sep is None:
+            raise Unsupported("SStr.split() on whitespace")
+        out, rest = [], self
+        while maxsplit != 0:
+            if not isinstance(rest, SStr):
+                return out + rest.split(sep, maxsplit)
+            a, b, c = rest.partition(sep)
+            if len(cp_items(b)) == 0:
+                break
+            out.append(a)
+            rest = c
+            maxsplit -= 1
+        return out + [rest]
+
+    def _is_space(self, x) -> bool:
+        if isinstance(x, int):
+            return chr(x).isspace()
+        return branch(z3.Or(*[x == c for c in _SPACES]))
+
+    def strip(self, chars=None):
+        return self.lstrip(chars).rstrip(chars) if isinstance(self.lstrip(chars), SStr) else self.lstrip(chars).strip(chars)
+
+    def lstrip(self, chars=None):
+        items = list(self.items)
+        cs = None if chars is None else cp_items(chars)
+        while items:
+            x = items[0]
+            hit = self._is_space(x) if cs is None else any(self._eq_char(x, c) for c in cs)
+            if not hit:
+                break
+            items.pop(0)
+        return mkstr(items)
+
+    def rstrip(self, chars=None):
+        items = list(self.items)
+        cs = None if chars is None else cp_items(chars)
+        while items:
+            x = items[-1]
+            hit = self._is_space(x) if cs is None else any(self._eq_char(x, c) for c in cs)
+            if not hit:
+                break
+            items.pop()
+        return mkstr(items)
+
+    def _case(self, upper: bool):
+        out = []
+        for x in self.items:
+            if isinstance(x, int):
+                r = (chr(x).upper() if upper else chr(x).lower())
+                if len(r) != 1:
+                    raise Unsupported("case mapping that changes the length")
+                out.append(ord(r))
+                continue
+            # decide through the solver whether the character is ASCII; beyond ASCII the
+            # case tables are not modelled
+            if not branch(z3.ULT(x, 128)):
+                raise Unsupported("case mapping of a symbolic non-ASCII character")
+            lo, hi = (0x61, 0x7A) if upper else (0x41, 0x5A)
+            delta = -32 if upper else 32
+            out.append(z3.simplify(z3.If(z3.And(z3.UGE(x, lo), z3.ULE(x, hi)), x + delta, x)))
+        return mkstr(out)
+
+    def lower(self):
+        return self._case(False)
+
+    def upper(self):
+        return self._case(True)
+
+    casefold = lower
+
+    def replace(self, old, new, count=-1):
+        o, n = cp_items(old), cp_items(new)
+        if len(o) != 1:
+            raise Unsupported("SStr.replace with a multi-character pattern")
+        out = []
+        for x in self.items:
+            if self._eq_char(x, o[0]) if isinstance(o[0], int) else bool(mkbool(cp_bv(x) == cp_bv(o[0]))):
+                out.extend(n)
+            else:
+                out.append(x)
+        return mkstr(out)
+
+    def isspace(self):
+        return len(self.items) > 0 and all(self._is_space(x) for x in self.items)
 
     def __repr__(self) -> str:
         return f"<SStr len={len(self.items)}>"
